@@ -191,6 +191,14 @@ func init() {
 		defer cleanup()
 		forWatchSpecs(c, dir, func(c *enumx.Ctx, w watchSpec) { roundTrip(c, w.line(), "watch", "") })
 		// watch-shaped syscall rules: perm + path/dir + optional key in every field order, !=, never, no path
+		// the same through links: dir= a link to a directory, path= a link to a file (inside the stated
+		// domain: stat says directory / non-directory)
+		for _, l := range []string{"-a always,exit -F dir=" + dir + "/ld -F perm=wa", "-a always,exit -F dir=" + dir + "/lld -F perm=r -F key=k", "-a always,exit -F path=" + dir + "/lf -F perm=wa", "-a always,exit -F path=" + dir + "/ldangling -F perm=x", "-w " + dir + "/ld -p wa", "-w " + dir + "/lf -p r -k k"} {
+			if !c.Mine() {
+				continue
+			}
+			roundTrip(c, l, "watch-shaped", " through-symlink")
+		}
 		f, d := dir+"/f", dir+"/d"
 		parts := map[string]string{"perm": "-F perm=wa", "path": "-F path=" + f, "dir": "-F dir=" + d, "key": "-F key=wk", "pathne": "-F path!=" + f}
 		orders := [][]string{{"perm", "path"}, {"path", "perm"}, {"perm", "dir"}, {"dir", "perm"}, {"perm", "path", "key"}, {"path", "perm", "key"}, {"key", "path", "perm"}, {"perm", "key", "path"}, {"key", "perm", "path"}, {"path", "key", "perm"},
